@@ -229,7 +229,9 @@ pub open spec fn stmt_pre_a(s: Statement, a: TState) -> bool
 	&&& match s {
 		Statement::Assignment { reference, value, .. } => {
 			let run = assign_run(reference, value, a);
-			aa_obligations(run.r1, etype(run.e1), Some(run.e1), run.a1)
+			// get_type_of_reference (U-TYPREF): every structure the place passes through has been declared
+			&&& gtr_pre(reference, a.symbols, a.structures)
+			&&& aa_obligations(run.r1, etype(run.e1), Some(run.e1), run.a1)
 		},
 		Statement::If { then_branch, else_branch, .. } => forall|b: TState| #![trigger tab_wf(b.symbols)] tab_wf(b.symbols) ==>
 			stmt_pre_a(*then_branch, b) && (else_branch is Some ==> stmt_pre_a(*else_branch->Some_0.branch, b)),
@@ -401,11 +403,20 @@ pub open spec fn aa_post(r: Reference, vt: Option<Poisonable<ValueType>>, av: Op
 				})
 		}
 }
-// the only obligation of analyze_assignment that nothing in the typer establishes: a size regime (no type has 2^64 pointer levels;
+// the obligations of analyze_assignment that nothing in the typer establishes: a size regime (no type has 2^64 pointer levels;
 // pointer_depth() counts them in a usize).  The three assert!(..is_wellformed()) sites of the assignment path - the type put for
 // the base variable (D22), the type put for the member, the assignee type shown by E507 (D23) - are guarded or gone and PROVED unreachable.
 pub open spec fn aa_obligations(r: Reference, vt: Option<Poisonable<ValueType>>, av: Option<Expression>, a: TState) -> bool {
-	typed(vt) ==> value_type::pdepth(vt->Some_0->Ok_0) <= usize::MAX
+	&&& typed(vt) ==> value_type::pdepth(vt->Some_0->Ok_0) <= usize::MAX
+	// the precondition of analyze_assignment_steps (spec/u_typas_spec.rs: no unreachable!() is met walking the steps from the recorded type
+	// of the base).  It FOLLOWS from "the place has a type" (theorem_typed_place_can_be_walked, U-TYPAS) in the table state in which
+	// get_type_of_reference ran; here it is needed in the state AFTER the value and the index expressions were analysed (uninterpreted
+	// effects), so it stays a caller obligation
+	&&& r.base is Ok ==> {
+		let f = steps_fold(r.steps@, r.steps@.len() as int, a);
+		let bt = get_spec(f.1.symbols, r.base->Ok_0);
+		typed(bt) ==> as_pre(bt->Some_0->Ok_0, f.0, f.1.symbols)
+	}
 }
 pub open spec fn aa_pre(r: Reference, vt: Option<Poisonable<ValueType>>, av: Option<Expression>, a: TState) -> bool {
 	&&& tab_wf(a.symbols) && opt_wf(vt)
